@@ -94,6 +94,19 @@ def generate(repo):
                           r'epoch = datetime_t\(date_t\(year, (\d+), (\d+)\)\); \} catch ?\(bad_lexical_cast ?&\) \{ .* \}', yb)
         if mm:
             ydir = (int(mm.group(1)), int(mm.group(2)), True)
+    # textual.cc instance_t::parse, after the reading loop: only the FRONT entry of the file's own apply
+    # stack is examined; a year entry there puts the saved clock back; one entry is popped
+    fend = False
+    mp = re.search(r'void\s+instance_t::parse\s*\(\s*\)\s*\{(.*?)\n\}', tsrc, re.S)
+    if mp:
+        pb = re.sub(r'//[^\n]*', '', mp.group(1))
+        pb = re.sub(r'\s+', ' ', pb)
+        tail = pb[pb.rfind('context.last = err.what(); } }'):] if 'context.last = err.what(); } }' in pb else ''
+        if re.match(r'context\.last = err\.what\(\); \} \} '
+                    r'if \(apply_stack\.front\(\)\.value\.type\(\) == typeid\(optional<datetime_t>\)\) '
+                    r'epoch = boost::get<optional<datetime_t> >\(apply_stack\.front\(\)\.value\); '
+                    r'apply_stack\.pop_front\(\); ', tail) and len(re.findall(r'\bepoch\b', pb)) == 1:
+            fend = True
     text = ['(* GENERATED by harness/translators/c14_formats.py from src/times.cc - do not edit *)',
             'From Coq Require Import ZArith List.', 'Import ListNotations.', 'Local Open Scope Z_scope.',
             '(* times_initialize: readers.push_back(... new date_io_t(FMT, true)), in order *)',
@@ -117,5 +130,8 @@ def generate(repo):
             'Definition src_year_directive_month : Z := %d.' % ydir[0],
             'Definition src_year_directive_day : Z := %d.' % ydir[1],
             'Definition src_year_directive_unconditional : bool := %s.' % ('true' if ydir[2] else 'false (* unrecognised *)'),
+            '(* textual.cc instance_t::parse at end of file: if the front entry of the apply stack is a year entry, epoch :=',
+            '   the clock it saved; exactly that - no search through the stack or through the including files *)',
+            'Definition src_file_end_restores_front_only : bool := %s.' % ('true' if fend else 'false (* unrecognised *)'),
             '']
     return {'DateFormats.v': '\n'.join(text)}
